@@ -58,8 +58,15 @@ def run(ctx, chk):
     at = codec.assemble_table(ctx)
     pa = codec.parse_arguments(ctx)
     ov = operand_variants(ctx)
-    po = parserx.parse_operands(ctx)
+    from . import quantx
     sc = parserx.spec_constant_op(ctx)
+    try:
+        spx = quantx.special(ctx)
+        inter = {k for k, v in spx.items() if not any(c == ("operand", k) for c in v["consumed"]) and not (isinstance(v["result"], tuple) and v["result"][0] == "panic")}
+    except Anchor as ex:
+        spx, inter = {}, set()
+        chk.rule("R-CODEC-1", "")
+        chk.bad("R-CODEC-1", "parse_operands", "parse_operands is not analysable: %s" % ex, raw.where("parse_operands", "Parser"), key="C02:parse_operands-shape")
     from ..model import grammar_tables
     kinds = grammar_tables(ctx)["kinds"]
     WP = "rspirv/binary/autogen_parse_operand.rs"
@@ -79,7 +86,6 @@ def run(ctx, chk):
         else:
             chk.check(R1, not e.get("panic"), "kind:" + k, "kind %s panics in parse_operand" % k, WP, sample=e if not e.get("panic") else None)
     panicking = {k for k, v in pt.items() if v.get("panic")}
-    inter = set(po["intercepted"])
     chk.check(R1, panicking - {"IdResultType", "IdResult"} <= inter and {"IdResultType", "IdResult"} <= inter, "intercepted⊇panicking",
               "parse_operands intercepts %s but parse_operand panics for %s" % (sorted(inter), sorted(panicking)),
               raw.where("parse_operands", "Parser"))
